@@ -95,7 +95,8 @@ type plan struct {
 	Commit   bool   `json:"commit"`
 	Rollback bool   `json:"rollback"`
 	Cancel   int    `json:"cancel"` // -1 never | 0 before the call | k inside step k
-	Db       string `json:"db"`     // ok | nobegin | err: class of the handle given to Transact
+	Db       string `json:"db"`     // ok | nobegin | err | zero: class of the handle given to Transact
+	Pad      int    `json:"pad"`    // that many uneventful steps precede Steps (not listed)
 	// harness only (logged beside cfg, ignored by the spec)
 	Dbst string `json:"-"` // the concrete state of the handle
 	Ffl  string `json:"-"` // kind of error a refused begin / commit / rollback is answered with
@@ -108,7 +109,7 @@ func (p plan) rec() tr.E {
 		st = append(st, tr.E{"out": s.Out, "ex": s.Ex, "fin": s.Fin, "fl": s.Fl})
 	}
 	return tr.E{"n": p.N, "steps": st, "begin": p.Begin, "commit": p.Commit, "rollback": p.Rollback,
-		"cancel": p.Cancel, "db": p.Db}
+		"cancel": p.Cancel, "db": p.Db, "pad": p.Pad}
 }
 
 // ---------------------------------------------------------------------------- event log
@@ -846,6 +847,7 @@ type call struct {
 	bfl    string
 	ctx    context.Context
 	cancel func()
+	full   plan // p with the padding spelled out
 	fin    tr.E // ret / gone / hang
 	hung   bool
 }
@@ -879,10 +881,10 @@ func normalize(rng *rand.Rand, p *plan, dberr bool) {
 		}
 		s.Fl2 = []string{"direct", "sess"}[rng.Intn(2)]
 	}
-	if p.Cancel > len(p.Steps) || p.Cancel < -1 {
+	if p.Cancel > p.Pad+len(p.Steps) || p.Cancel < -1 || (p.Cancel > 0 && p.Cancel <= p.Pad) {
 		tr.Fatal("plan cancels in step %d of %d", p.Cancel, len(p.Steps))
 	}
-	if p.N == 0 && len(p.Steps) > 0 {
+	if p.N == 0 && len(p.Steps)+p.Pad > 0 {
 		tr.Fatal("plan with steps but no arguments")
 	}
 	if p.Db == "" {
@@ -936,6 +938,14 @@ func prepare(rng *rand.Rand, p plan, hooks map[int]func()) *call {
 	sc := &script{log: l, beginOK: p.Begin, connectOK: true, commitOK: p.Commit, rollbackOK: p.Rollback,
 		ffl: p.Ffl, execFail: map[int]bool{}, execLeft: map[int]int{}}
 	c := &call{p: p, l: l, sc: sc, bfl: "driver"}
+	if p.Pad > 0 { // the closures and the classification see the whole list
+		all := make([]step, 0, p.Pad+len(p.Steps))
+		for k := 0; k < p.Pad; k++ {
+			all = append(all, step{Out: "ok", Fin: "none", Fl: "plain", Fl2: "direct"})
+		}
+		p.Steps = append(all, p.Steps...)
+	}
+	c.full = p
 	l.rle = len(p.Steps) > 200
 	c.ctx, c.cancel = context.WithCancel(context.WithValue(context.Background(), ctxKey{}, sc))
 	fns := make([]gormx.GormProcFn, 0, len(p.Steps))
@@ -964,6 +974,9 @@ func prepare(rng *rand.Rand, p plan, hooks map[int]func()) *call {
 		}
 	}
 	c.args, c.shape = group(rng, p.N, fns)
+	if p.Pad > 0 {
+		c.shape = []interface{}{} // (as long as the list itself)
+	}
 	if p.N == 0 {
 		switch p.Nfl {
 		case "nilslice":
@@ -1002,7 +1015,7 @@ func (c *call) run(h *gorm.DB) {
 			e = gormx.Transact(h, c.args...)
 		}
 		returned = true
-		done <- tr.E{"ev": "ret", "r": classify(e, c.p, c.l), "what": fmt.Sprint(e)}
+		done <- tr.E{"ev": "ret", "r": classify(e, c.full, c.l), "what": fmt.Sprint(e)}
 	}()
 	select {
 	case c.fin = <-done:
@@ -1435,13 +1448,8 @@ func enumWidths(w *tr.W, rng *rand.Rand, widths []int) int {
 	for _, width := range widths {
 		for _, m := range []int{width - 1, width, width + 1} {
 			for _, last := range []step{st("ok", 0, "plain", "none"), st("err", 1, "plain", "none"), st("ok", 1, "plain", "none")} {
-				steps := make([]step, 0, m)
-				for k := 0; k < m-1; k++ {
-					steps = append(steps, st("ok", 0, "plain", "none"))
-				}
-				steps = append(steps, last)
-				p := mkPlan(1, steps, true, true, true, -1)
-				p.Dbst = "plain"
+				p := mkPlan(1, []step{last}, true, true, true, -1)
+				p.Pad, p.Dbst = m-1, "plain"
 				runOne(w, rng, "width", p)
 				n++
 			}
